@@ -11,6 +11,36 @@ use crate::rng::Rng;
 pub enum Tok {
     Lit(u8),
     Match { len: u16, dist: u16 },
+    /// FAULT (fixed blocks only): a raw literal/length symbol 286 or 287 followed by distance
+    /// symbol 0
+    BadLitLen(u16),
+    /// FAULT (fixed blocks only): a valid length followed by distance symbol 30 or 31
+    BadDistSym { len: u16, dsym: u8 },
+    /// FAULT: in a block whose distance code is a single 1-bit code, emit the undefined bit
+    /// pattern `1` for the distance
+    UndefDist { len: u16 },
+}
+
+/// Spec violations injected into a dynamic block header (exactly one per stream).
+#[derive(Clone, Copy, Debug, PartialEq, Eq)]
+pub enum DynFault {
+    None,
+    OverLit,
+    OverDist,
+    OverCl,
+    IncompleteLit,
+    IncompleteDist,
+    IncompleteCl,
+    /// HLIT field value 30 or 31 (287 / 288 codes), extra lengths are zero
+    Hlit(u8),
+    /// HDIST field value 30 or 31 (31 / 32 codes), extra lengths are zero
+    Hdist(u8),
+    /// code 16 as the very first code-length symbol (symbols 0..2 unused)
+    Rep16First,
+    /// the last zero-run is encoded with a repeat count overrunning HLIT+HDIST
+    RepOverflow,
+    /// litlen set is EOB only (one 1-bit code); emit the undefined pattern instead of EOB
+    UndefLit,
 }
 
 #[derive(Clone, Copy, Debug, PartialEq, Eq)]
@@ -48,6 +78,9 @@ pub struct DynOpts {
     pub empty_dist_mode: u8,
     /// when exactly one distance symbol is used: encode it as a single 1-bit code (incomplete)
     pub single_dist_incomplete: bool,
+    /// maximum code length for the literal/length and distance codes (<= 15)
+    pub max_depth: u8,
+    pub fault: DynFault,
 }
 
 impl DynOpts {
@@ -59,13 +92,15 @@ impl DynOpts {
                 _ => Shape::Random,
             },
             extra_litlen: if rng.chance(1, 3) { rng.size_biased(60) } else { 0 },
-            extra_dist: if rng.chance(1, 3) { rng.below(12) } else { 0 },
+            extra_dist: if rng.chance(1, 3) { rng.below(30) } else { 0 },
             pad_hlit: if rng.chance(1, 4) { rng.below(30) } else { 0 },
             pad_hdist: if rng.chance(1, 4) { rng.below(29) } else { 0 },
             pad_hclen: if rng.chance(1, 4) { rng.below(15) } else { 0 },
             rle_bias: rng.below(9) as u32,
             empty_dist_mode: rng.below(3) as u8,
             single_dist_incomplete: rng.bool(),
+            max_depth: if rng.chance(1, 3) { rng.range(9, 15) as u8 } else { 15 },
+            fault: DynFault::None,
         }
     }
     pub fn plain() -> DynOpts {
@@ -79,6 +114,8 @@ impl DynOpts {
             rle_bias: 6,
             empty_dist_mode: 0,
             single_dist_incomplete: true,
+            max_depth: 15,
+            fault: DynFault::None,
         }
     }
 }
@@ -228,6 +265,21 @@ impl Builder {
         }
     }
 
+    /// FAULT helper: a match whose distance may exceed the bytes produced (plaintext
+    /// placeholder bytes are zeros; the reference decoder defines the real semantics).
+    pub fn mat_unchecked(&mut self, len: usize, dist: usize) {
+        self.cur.push(Tok::Match { len: len as u16, dist: dist as u16 });
+        for _ in 0..len {
+            let n = self.plain.len();
+            let b = if dist <= n { self.plain[n - dist] } else { 0 };
+            self.plain.push(b);
+        }
+    }
+
+    pub fn fault_tok(&mut self, t: Tok) {
+        self.cur.push(t);
+    }
+
     pub fn lits(&mut self, bs: &[u8]) {
         for &b in bs {
             self.lit(b);
@@ -292,7 +344,7 @@ impl Builder {
         self.finish_block(info);
     }
 
-    fn emit_tokens(&mut self, lit_lens: &[u8], lit_codes: &[u32], d_lens: &[u8], d_codes: &[u32]) {
+    fn emit_tokens(&mut self, lit_lens: &[u8], lit_codes: &[u32], d_lens: &[u8], d_codes: &[u32], undef_eob: bool) {
         let toks = std::mem::take(&mut self.cur);
         for t in &toks {
             match *t {
@@ -307,9 +359,29 @@ impl Builder {
                     self.w.code(d_codes[ds], d_lens[ds] as u32);
                     self.w.bits(dx, dn);
                 }
+                Tok::BadLitLen(sym) => {
+                    self.w.code(lit_codes[sym as usize], lit_lens[sym as usize] as u32);
+                    self.w.code(d_codes[0], d_lens[0] as u32);
+                }
+                Tok::BadDistSym { len, dsym } => {
+                    let (ls, lx, ln) = self.len_sym(len as usize);
+                    self.w.code(lit_codes[ls], lit_lens[ls] as u32);
+                    self.w.bits(lx, ln);
+                    self.w.code(d_codes[dsym as usize], d_lens[dsym as usize] as u32);
+                }
+                Tok::UndefDist { len } => {
+                    let (ls, lx, ln) = self.len_sym(len as usize);
+                    self.w.code(lit_codes[ls], lit_lens[ls] as u32);
+                    self.w.bits(lx, ln);
+                    self.w.bit(1);
+                }
             }
         }
-        self.w.code(lit_codes[256], lit_lens[256] as u32);
+        if undef_eob {
+            self.w.bit(1);
+        } else {
+            self.w.code(lit_codes[256], lit_lens[256] as u32);
+        }
         self.cur = toks;
     }
 
@@ -331,13 +403,16 @@ impl Builder {
         let d = [5u8; 32];
         let lc = canonical_codes(&l);
         let dc = canonical_codes(&d);
-        self.emit_tokens(&l, &lc, &d, &dc);
+        self.emit_tokens(&l, &lc, &d, &dc, false);
         self.finish_block(info);
     }
 
     /// Encode the pending tokens as a dynamic-Huffman block with randomly shaped codes.
-    pub fn end_dynamic(&mut self, bfinal: bool, rng: &mut Rng, o: &DynOpts) {
+    /// Returns false (nothing sensible emitted) when a requested fault cannot be realised for
+    /// this token set; the caller then retries with other tokens.
+    pub fn end_dynamic(&mut self, bfinal: bool, rng: &mut Rng, o: &DynOpts) -> bool {
         let info = self.begin(bfinal, 2);
+        let fault = o.fault;
         // used symbols
         let mut lit_used = [false; 286];
         let mut d_used = [false; 30];
@@ -347,84 +422,218 @@ impl Builder {
                 Tok::Lit(b) => lit_used[b as usize] = true,
                 Tok::Match { len, dist } => {
                     lit_used[self.len_sym(len as usize).0] = true;
-                    d_used[self.dist_sym(dist as usize).0] = true;
+                    d_used[self.dist_sym((dist as usize).clamp(1, 32768)).0] = true;
                 }
+                Tok::UndefDist { len } => {
+                    lit_used[self.len_sym(len as usize).0] = true;
+                }
+                _ => {}
             }
         }
+        let mut feasible = true;
         let mut n_extra = o.extra_litlen;
         let mut unused: Vec<usize> = (0..286).filter(|&i| !lit_used[i]).collect();
+        if fault == DynFault::Rep16First {
+            if lit_used[0] || lit_used[1] || lit_used[2] {
+                feasible = false;
+            }
+            unused.retain(|&i| i > 2);
+        }
+        if matches!(fault, DynFault::OverLit | DynFault::IncompleteLit) {
+            if lit_used[285] {
+                feasible = false;
+            }
+            unused.retain(|&i| i != 285);
+        }
         rng.shuffle(&mut unused);
         let mut lit_syms: Vec<usize> = (0..286).filter(|&i| lit_used[i]).collect();
         while n_extra > 0 && !unused.is_empty() {
             lit_syms.push(unused.pop().unwrap());
             n_extra -= 1;
         }
-        let mut lit_lens = vec![0u8; 286];
+        if fault == DynFault::IncompleteLit {
+            lit_syms.push(285);
+            if lit_syms.len() < 3 {
+                lit_syms.push(unused.pop().unwrap());
+            }
+        }
+        if fault == DynFault::OverLit && lit_syms.len() < 2 {
+            lit_syms.push(unused.pop().unwrap());
+        }
+        if fault == DynFault::UndefLit && lit_syms.len() != 1 {
+            feasible = false;
+        }
+        let mut lit_lens = vec![0u8; 288];
         if lit_syms.len() == 1 {
             // only EOB: a single one-bit code (incomplete set, permitted degenerate form)
             lit_lens[lit_syms[0]] = 1;
         } else {
-            let ls = complete_lengths(rng, lit_syms.len(), 15, o.shape);
+            let mut md = o.max_depth.max(2);
+            while (1usize << md) < lit_syms.len() {
+                md += 1;
+            }
+            let ls = complete_lengths(rng, lit_syms.len(), md, o.shape);
             for (s, l) in lit_syms.iter().zip(ls) {
                 lit_lens[*s] = l;
             }
         }
+        let max_of = |v: &[u8]| v.iter().copied().max().unwrap_or(0);
+        match fault {
+            DynFault::OverLit => {
+                lit_lens[285] = max_of(&lit_lens);
+            }
+            DynFault::IncompleteLit => {
+                // give 285 the maximum length (swap with a holder of it), then drop it
+                let m = max_of(&lit_lens);
+                if lit_lens[285] != m {
+                    let j = (0..285).find(|&i| lit_lens[i] == m).unwrap();
+                    lit_lens.swap(j, 285);
+                }
+                lit_lens[285] = 0;
+                if m < 2 {
+                    feasible = false;
+                }
+            }
+            _ => {}
+        }
         let n_d_used = d_used.iter().filter(|&&x| x).count();
         let mut d_syms: Vec<usize> = (0..30).filter(|&i| d_used[i]).collect();
         let mut d_unused: Vec<usize> = (0..30).filter(|&i| !d_used[i]).collect();
-        rng.shuffle(&mut d_unused);
-        let mut d_lens = vec![0u8; 30];
-        let mut extra_d = o.extra_dist;
-        if n_d_used == 0 {
-            match o.empty_dist_mode {
-                0 => {}
-                1 => {
-                    d_lens[d_unused[0]] = 1;
-                }
-                _ => {
-                    extra_d = extra_d.max(2);
-                }
+        if matches!(fault, DynFault::OverDist | DynFault::IncompleteDist) {
+            if d_used[29] {
+                feasible = false;
             }
-            if o.empty_dist_mode < 2 {
-                extra_d = 0;
-            }
+            d_unused.retain(|&i| i != 29);
         }
-        if n_d_used == 1 && o.single_dist_incomplete && extra_d == 0 {
-            d_lens[d_syms[0]] = 1;
-        } else if n_d_used >= 1 || extra_d >= 2 {
-            while extra_d > 0 && !d_unused.is_empty() {
-                d_syms.push(d_unused.pop().unwrap());
-                extra_d -= 1;
+        rng.shuffle(&mut d_unused);
+        let mut d_lens = vec![0u8; 32];
+        let mut extra_d = o.extra_dist;
+        let has_undef_dist = self.cur.iter().any(|t| matches!(t, Tok::UndefDist { .. }));
+        if has_undef_dist {
+            // exactly one distance symbol with a 1-bit code; the fault token emits pattern `1`
+            if n_d_used > 1 {
+                feasible = false;
             }
-            if d_syms.len() == 1 {
-                d_syms.push(d_unused.pop().unwrap());
+            let sym = if n_d_used == 1 { d_syms[0] } else { d_unused[0] };
+            d_lens[sym] = 1;
+        } else {
+            if n_d_used == 0 {
+                match o.empty_dist_mode {
+                    0 => {}
+                    1 => {
+                        d_lens[d_unused[0]] = 1;
+                    }
+                    _ => {
+                        extra_d = extra_d.max(2);
+                    }
+                }
+                if o.empty_dist_mode < 2 {
+                    extra_d = 0;
+                }
             }
-            let ls = complete_lengths(rng, d_syms.len(), 15, o.shape);
-            for (s, l) in d_syms.iter().zip(ls) {
-                d_lens[*s] = l;
+            if matches!(fault, DynFault::OverDist | DynFault::IncompleteDist) {
+                // need a genuinely complete multi-symbol distance code to start from
+                if fault == DynFault::IncompleteDist {
+                    d_syms.push(29);
+                }
+                while d_syms.len() < 3 {
+                    d_syms.push(d_unused.pop().unwrap());
+                }
+                d_lens = vec![0u8; 32];
+                let ls = complete_lengths(rng, d_syms.len(), o.max_depth.max(5), o.shape);
+                for (s, l) in d_syms.iter().zip(ls) {
+                    d_lens[*s] = l;
+                }
+                let m = max_of(&d_lens);
+                if fault == DynFault::OverDist {
+                    d_lens[29] = m;
+                } else {
+                    if d_lens[29] != m {
+                        let j = (0..29).find(|&i| d_lens[i] == m).unwrap();
+                        d_lens.swap(j, 29);
+                    }
+                    d_lens[29] = 0;
+                }
+            } else if n_d_used == 1 && o.single_dist_incomplete && extra_d == 0 {
+                d_lens[d_syms[0]] = 1;
+            } else if n_d_used >= 1 || extra_d >= 2 {
+                while extra_d > 0 && !d_unused.is_empty() {
+                    d_syms.push(d_unused.pop().unwrap());
+                    extra_d -= 1;
+                }
+                if d_syms.len() == 1 {
+                    d_syms.push(d_unused.pop().unwrap());
+                }
+                let mut md = o.max_depth.max(2);
+                while (1usize << md) < d_syms.len() {
+                    md += 1;
+                }
+                let ls = complete_lengths(rng, d_syms.len(), md, o.shape);
+                for (s, l) in d_syms.iter().zip(ls) {
+                    d_lens[*s] = l;
+                }
             }
         }
         // HLIT / HDIST
         let last_lit = (0..286).rev().find(|&i| lit_lens[i] != 0).unwrap();
         let hlit = (last_lit + 1).max(257);
-        let hlit = (hlit + o.pad_hlit).min(286);
+        let mut hlit = (hlit + o.pad_hlit).min(286);
         let last_d = (0..30).rev().find(|&i| d_lens[i] != 0);
         let hdist = last_d.map_or(1, |i| i + 1);
-        let hdist = (hdist + o.pad_hdist).min(30);
+        let mut hdist = (hdist + o.pad_hdist).min(30);
+        match fault {
+            DynFault::Hlit(f) => hlit = 257 + f as usize,
+            DynFault::Hdist(f) => hdist = 1 + f as usize,
+            DynFault::RepOverflow => {
+                // make sure the sequence ends in a zero run of 3..=9 entries
+                let tail = hdist - last_d.map_or(0, |i| i + 1);
+                if tail < 3 {
+                    hdist = (last_d.map_or(0, |i| i + 1) + 3 + rng.below(5)).min(30);
+                }
+                if hdist - last_d.map_or(0, |i| i + 1) < 3 {
+                    feasible = false;
+                }
+            }
+            _ => {}
+        }
         let mut seq: Vec<u8> = lit_lens[..hlit].to_vec();
         seq.extend_from_slice(&d_lens[..hdist]);
         // run-length encode with randomised choices
         let mut cl_syms: Vec<(u8, u32, u32)> = Vec::new(); // (symbol, extra value, extra bits)
+        let no18 = matches!(fault, DynFault::OverCl | DynFault::IncompleteCl);
         let mut i = 0;
+        if fault == DynFault::Rep16First {
+            cl_syms.push((16, 0, 2));
+            i = 3;
+        }
+        let tail_start = if fault == DynFault::RepOverflow {
+            let mut t = seq.len();
+            while t > 0 && seq[t - 1] == 0 {
+                t -= 1;
+            }
+            // keep the final run at most 9 long so that code 17 can express run+1
+            t.max(seq.len().saturating_sub(9))
+        } else {
+            usize::MAX
+        };
         while i < seq.len() {
+            if i == tail_start {
+                let run = seq.len() - i;
+                if run < 2 {
+                    feasible = false;
+                }
+                let over = (run + 1 + rng.below(3)).clamp(3, 10);
+                cl_syms.push((17, (over - 3) as u32, 3));
+                break;
+            }
             let v = seq[i];
             let mut run = 1;
-            while i + run < seq.len() && seq[i + run] == v {
+            while i + run < seq.len() && seq[i + run] == v && i + run != tail_start {
                 run += 1;
             }
             let use_rle = rng.below(8) < o.rle_bias as usize;
             if v == 0 && run >= 3 && use_rle {
-                if run >= 11 && rng.chance(3, 4) {
+                if run >= 11 && rng.chance(3, 4) && !no18 {
                     let r = if rng.chance(1, 2) { run.min(138) } else { rng.range(11, run.min(138)) };
                     cl_syms.push((18, (r - 11) as u32, 7));
                     i += r;
@@ -449,6 +658,9 @@ impl Builder {
         }
         let mut cls: Vec<usize> = (0..19).filter(|&i| cl_used[i]).collect();
         let mut cl_unused: Vec<usize> = (0..19).filter(|&i| !cl_used[i]).collect();
+        if no18 {
+            cl_unused.retain(|&i| i != 18);
+        }
         rng.shuffle(&mut cl_unused);
         let extra_cl = if rng.chance(1, 3) { rng.below(4) } else { 0 };
         for _ in 0..extra_cl {
@@ -456,7 +668,10 @@ impl Builder {
                 cls.push(x);
             }
         }
-        if cls.len() == 1 {
+        if fault == DynFault::IncompleteCl {
+            cls.push(18);
+        }
+        while cls.len() < 2 || (fault == DynFault::IncompleteCl && cls.len() < 3) {
             cls.push(cl_unused.pop().unwrap());
         }
         let cl_shape = if o.shape == Shape::Skewed { Shape::Skewed } else { Shape::Random };
@@ -464,6 +679,20 @@ impl Builder {
         let mut cl_lens = [0u8; 19];
         for (s, l) in cls.iter().zip(cll) {
             cl_lens[*s] = l;
+        }
+        match fault {
+            DynFault::OverCl => {
+                cl_lens[18] = max_of(&cl_lens);
+            }
+            DynFault::IncompleteCl => {
+                let m = max_of(&cl_lens);
+                if cl_lens[18] != m {
+                    let j = (0..18).find(|&i| cl_lens[i] == m).unwrap();
+                    cl_lens.swap(j, 18);
+                }
+                cl_lens[18] = 0;
+            }
+            _ => {}
         }
         let order = cl_order();
         let last = (0..19).rev().find(|&i| cl_lens[order[i] as usize] != 0).unwrap();
@@ -480,10 +709,21 @@ impl Builder {
             self.w.code(cl_codes[s as usize], cl_lens[s as usize] as u32);
             self.w.bits(xv, xb);
         }
-        let lc = canonical_codes(&lit_lens);
-        let dc = canonical_codes(&d_lens);
-        self.emit_tokens(&lit_lens, &lc, &d_lens, &dc);
+        // codes of the *used* symbols: computed from the fault-free lengths when the fault
+        // appended / dropped the canonically last symbol (their codes are unchanged by it)
+        let mut ll = lit_lens.clone();
+        let mut dl = d_lens.clone();
+        if fault == DynFault::OverLit {
+            ll[285] = 0;
+        }
+        if fault == DynFault::OverDist {
+            dl[29] = 0;
+        }
+        let lc = canonical_codes(&ll[..286]);
+        let dc = canonical_codes(&dl[..30]);
+        self.emit_tokens(&ll, &lc, &dl, &dc, fault == DynFault::UndefLit);
         self.finish_block(info);
+        feasible
     }
 
     /// Finish: pad the final byte with `fill` bits, append the zlib trailer if needed.
@@ -586,7 +826,9 @@ pub fn random_tokens(b: &mut Builder, rng: &mut Rng, n: usize, max_dist: usize) 
         let have = b.out_len().min(max_dist);
         if have >= 1 && rng.chance(match_p, 8) {
             let len = if rng.chance(1, 3) { *rng.pick(&LEN_BIAS) } else { 3 + rng.size_biased(255) };
-            let dist = if rng.chance(1, 3) {
+            let dist = if have >= 32768 && rng.chance(1, 6) {
+                32768
+            } else if rng.chance(1, 3) {
                 *rng.pick(&DIST_BIAS)
             } else {
                 1 + rng.size_biased(32767)
@@ -632,7 +874,13 @@ pub fn random_stream(rng: &mut Rng, o: &GenOpts) -> GenStream {
         };
         match kind {
             Kind::Stored => {
-                let n = if rng.chance(1, 8) { 0 } else { rng.size_biased(o.max_stored) };
+                let n = if rng.chance(1, 8) {
+                    0
+                } else if rng.chance(1, 4) {
+                    1 + rng.below(4)
+                } else {
+                    rng.size_biased(o.max_stored)
+                };
                 let data = if rng.chance(1, 2) {
                     rng.bytes(n)
                 } else {
@@ -653,7 +901,7 @@ pub fn random_stream(rng: &mut Rng, o: &GenOpts) -> GenStream {
                 if let Some(s) = o.force_shape {
                     d.shape = s;
                 }
-                b.end_dynamic(bfinal, rng, &d);
+                let _ = b.end_dynamic(bfinal, rng, &d);
             }
         }
     }
